@@ -30,6 +30,8 @@ type Engine struct {
 	FuncDecls map[*types.Func]*ast.FuncDecl
 	AllFuncs  map[string]*ssa.Function // by String()
 	storedGlobals map[*ssa.Global]bool
+	ghostScanned   bool
+	ghosts         []*ssa.Global
 	globalsScanned bool
 	DepsDir   string
 	IfaceImpls map[string][]string
@@ -287,6 +289,42 @@ func (e *Engine) inRepo(fn *ssa.Function) bool {
 }
 
 // scanGlobals records which globals are ever stored to (outside package initialisers).
+// ghostGlobals: package-level variables named ghost* declared in contract files (zz_verif_*.go) of the loaded packages.
+// They are exempt from the frame discipline: any call applied through a contract may change them (applyMods havocs
+// them at every such call), and no modifies clause has to list them.
+func (e *Engine) ghostGlobals() []*ssa.Global {
+	if e.ghostScanned {
+		return e.ghosts
+	}
+	e.ghostScanned = true
+	var paths []string
+	for p := range e.SPkgs {
+		paths = append(paths, p)
+	}
+	sort.Strings(paths)
+	for _, p := range paths {
+		sp := e.SPkgs[p]
+		if sp == nil {
+			continue
+		}
+		var names []string
+		for n := range sp.Members {
+			names = append(names, n)
+		}
+		sort.Strings(names)
+		for _, n := range names {
+			g, ok := sp.Members[n].(*ssa.Global)
+			if !ok || !strings.HasPrefix(n, "ghost") || !g.Pos().IsValid() {
+				continue
+			}
+			if strings.HasPrefix(filepath.Base(e.Fset.Position(g.Pos()).Filename), "zz_verif_") {
+				e.ghosts = append(e.ghosts, g)
+			}
+		}
+	}
+	return e.ghosts
+}
+
 func (e *Engine) scanGlobals() {
 	if e.globalsScanned {
 		return
